@@ -112,8 +112,18 @@ func call(f func() ([]byte, error)) (r btcdDigest) {
 }
 
 // checkLegacy compares CalcSignatureHash with the reference.
-func checkLegacy(tx *wire.MsgTx, idx int, ht uint32, script []byte) string {
+func checkLegacy(shared *wire.MsgTx, idx int, ht uint32, script []byte) string {
+	// the digest is a pure function of the transaction: it runs on a private
+	// copy (a write cannot leak into the next case) and must leave it untouched
+	tx := shared.Copy()
+	var before bytes.Buffer
+	tx.SerializeNoWitness(&before)
 	got := call(func() ([]byte, error) { return txscript.CalcSignatureHash(script, txscript.SigHashType(ht), tx, idx) })
+	var after bytes.Buffer
+	tx.SerializeNoWitness(&after)
+	if !bytes.Equal(before.Bytes(), after.Bytes()) {
+		return fmt.Sprintf("CalcSignatureHash changed the transaction it was given: %x -> %x", before.Bytes(), after.Bytes())
+	}
 	want := refsighash.Legacy(script, ht, tx, idx)
 	if got.pan != "" {
 		return "CalcSignatureHash " + got.String()
